@@ -29,12 +29,14 @@ def ulp_diff(a: int, b: int) -> float:
     return abs(key(a) - key(b))
 
 
-def _run(cmd, lines, what, timeout):
+def _run(cmd, lines, what, timeout, tagged=False):
     data = ("\n".join(json.dumps(l, separators=(",", ":")) for l in lines) + "\n").encode()
     shell = f"ulimit -v {MEM_LIMIT_KB}; exec {cmd}"
     p = subprocess.run(["bash", "-c", shell], input=data, stdout=subprocess.PIPE, stderr=subprocess.PIPE,
                        timeout=timeout)
-    out = p.stdout.decode().splitlines()
+    out = p.stdout.decode(errors="replace").splitlines()
+    if tagged:
+        out = [l[6:] for l in out if l.startswith("@@ANS ")]
     res = []
     for l in out:
         try:
@@ -51,7 +53,7 @@ def _run(cmd, lines, what, timeout):
 
 
 def run_harness(reqs, timeout=1800):
-    return _run(HARNESS_BIN, reqs, "harness", timeout)
+    return _run(HARNESS_BIN, reqs, "harness", timeout, tagged=True)
 
 
 def run_driver(reqs, timeout=1800):
